@@ -20,7 +20,7 @@ ASSUMPTIONS = [
 ]
 MAX_POOL = 8
 QUERIES = ['positions', 'displacements', 'cumulative', 'distances', 'msd', 'diffusivity', 'speed', 'volume', 'drift', 'com', 'transitions',
-           'drift_correct', 'structure', 'lattice', 'rdf', 'len']
+           'drift_correct', 'structure', 'lattice', 'rdf', 'len', 'shape', 'free_energy', 'all_metrics', 'site_analysis']
 
 
 class Model:
@@ -201,6 +201,41 @@ class TrajMachine(LogMachine):
         elif what == 'rdf':
             a, b = m.symbols[op.get('k', 0) % N], m.symbols[(op.get('k', 0) // 7) % N]
             gcall(t.radial_distribution_between_species, specie_1=a, specie_2=b, max_dist=3.0, resolution=0.5)
+        elif what == 'shape':
+            # shape analysis of the trajectory seen as a supercell of a reference structure (space group P1)
+            from gemdat.shape import ShapeAnalyzer
+            from pymatgen.core import Lattice, PeriodicSite
+            from pymatgen.symmetry.groups import SpaceGroup
+
+            sc = [(2, 1, 1), (1, 2, 2), (1, 1, 1), None][op.get('k', 0) % 4]
+            scale = np.array(sc or (1, 1, 1), float)
+            lat = Lattice(m.matrix / scale[:, None])
+            an = ShapeAnalyzer(sites=[PeriodicSite('Li', [0.1, 0.2, 0.3], lat, label='A')], lattice=lat, spacegroup=SpaceGroup('P1'))
+            gcall(an.analyze_trajectory, t, supercell=sc, radius=0.8)
+        elif what == 'free_energy':
+            res = float(np.linalg.norm(m.matrix, axis=1).min()) / 2.5
+            v = gcall(t.to_volume, resolution=res)
+            fe = gcall(v.get_free_energy, 300.0)
+            if not np.all(np.isfinite(np.asarray(fe.data))):
+                raise Violation('query-value', 'free energy not finite')
+        elif what == 'all_metrics':
+            mo = gcall(t.metrics)
+            self.flags['disp_switch'] = True
+            for name, kw in (('particle_density', {}), ('mol_per_liter', {}), ('tracer_diffusivity_center_of_mass', {'dimensions': 2}), ('attempt_frequency', {}),
+                             ('vibration_amplitude', {}), ('amplitudes', {}), ('tracer_conductivity', {'z_ion': 1, 'dimensions': 3})):
+                gcall(getattr(mo, name), allow=(ValueError, ZeroDivisionError, FloatingPointError, IndexError), **kw)
+        elif what == 'site_analysis':
+            sym = m.symbols[op.get('k', 0) % N]
+            sites = cases.sites_structure(m.matrix, self.sites['frac'], self.sites['labels'], sym)
+            tr = gcall(t.transitions_between_sites, sites, sym, site_radius=self.sites['radius'], allow=(ValueError,))
+            if not hasattr(tr, 'exc'):
+                gcall(tr.occupancy)
+                gcall(tr.states_next)
+                gcall(tr.radial_distribution, floating_specie=sym, max_dist=3.0, resolution=0.5, allow=(ValueError,))
+                jm = gcall(tr.jumps, allow=(ValueError,))
+                if not hasattr(jm, 'exc'):
+                    gcall(jm.jump_diffusivity, 3)
+                    gcall(jm.collective, allow=(ValueError, ZeroDivisionError, OverflowError))
         else:
             raise AssertionError(what)
 
